@@ -1,6 +1,8 @@
-\* pathdb, repaired design (all switches TRUE), exhaustive: 2 tries (contract + one storage trie), H = 2
-\* (4 keys, 7 paths per trie), <= 3 updates (forks allowed), 1 restart, Cap keeping 1 or 2 layers, Commit,
-\* journal, reopen, crash inside Commit, lazy and eager write buffer
+\* pathdb, repaired design (all three switches TRUE), exhaustive, quick: 2 tries (contract + one storage trie) of
+\* height 2 (4 keys, 7 node positions each), <= 3 updates touching the first 2 keys (forks, repeated roots, empty blocks),
+\* Cap keeping 1 or 2 layers, Commit, cache warm-up, graceful shutdown (Journal; Close; New), crash (New without journal),
+\* crash inside Commit after any of its flushes, 1 restart, lazy and eager write buffer
+\* measured: 28 564 distinct states, depth 9 (25 s, 4 workers)
 CONSTANTS
   H = 2
   MaxV = 1
